@@ -2,7 +2,7 @@
 from hypothesis import strategies as st
 
 from props import c01
-from vlib import faultlab, mcserver
+from vlib import faultlab, mcserver, ops
 from vlib.faultlab import interpret
 from vlib.runner import Part, Violation
 
@@ -17,7 +17,7 @@ RULE = ("history = 1-15 PooledClient calls (legal arguments; store/fetch/multi-k
         "connection is checked out; a socket on which a fault fired, or that was used by a call that raised or swallowed "
         "an error, or by quit, is closed when the call ends and never touched again; a socket that has only carried "
         "successful calls and idled <= timeout is reused by the next call (no new socket); idled > timeout: it is closed "
-        "at the next checkout and a new one opened; 'Too many objects' never occurs. Non-trivial: a fault that fired is "
+        "at the next checkout and a new one opened; 'Too many objects' never occurs. Re-entrant calls: a serializer that itself uses the same PooledClient, so that a second pooled call starts and ends while the first holds its connection (within one thread): outer set/set_many/get/get_many x inner get/set/get_many/version x 0-2 warm connections x a fault on the nested exchange (swallowed by the serializer or not) x ignore_exc x max_pool_size {2,3,None}; afterwards nothing is checked out, no connection is listed twice, no open socket lives outside the pool, two healthy connections stay idle and are reused by the following calls, close() closes everything. Non-trivial: a fault that fired is "
         "followed by a later call, or a gap above the idle timeout is followed by a call.")
 MANIFEST = {
     "category": "fault_enumeration",
@@ -166,7 +166,140 @@ def history_strategy(tier):
                      st.sampled_from([0, 0, 1, 3, 7]))
 
 
+# ---- re-entrant calls -----------------------------------------------------------------------------------------------
+
+class ReentrantSerde:
+    """a serializer that itself uses the same PooledClient (a value whose serialization looks something up in the cache):
+    a second pooled call starts and ends while the first one holds its connection - within one thread, one sequence"""
+
+    def __init__(self, when, inner_op, swallow):
+        self.client = None
+        self.when, self.inner_op, self.swallow = when, inner_op, swallow
+        self.depth = 0
+        self.inner_results = []
+
+    def _inner(self):
+        if self.client is None or self.depth:
+            return
+        self.depth += 1
+        try:
+            c = self.client
+            r = {"get": lambda: c.get("t"), "set": lambda: c.set("inner", b"i", noreply=False), "get_many": lambda: c.get_many(["t", "n"]),
+                 "version": lambda: c.version()}[self.inner_op]()
+            self.inner_results.append(("ok", r))
+        except Exception as e:  # noqa: BLE001
+            self.inner_results.append(("exc", e))
+            if not self.swallow:
+                raise
+        finally:
+            self.depth -= 1
+
+    def serialize(self, key, value):
+        if self.when == "serialize":
+            self._inner()
+        return value, 0
+
+    def deserialize(self, key, value, flags):
+        if self.when == "deserialize":
+            self._inner()
+        return value
+
+
+def reentrant_cases(tier, seed):
+    inner_faults = [None, {"kind": "recv", "nth": 0, "what": "reset"}, {"kind": "connect", "nth": 0, "what": "refused"}, {"reply": 0, "tamper": "garbage"}]
+    for mx in (2, 3, None):
+        for when, outer in (("serialize", {"op": "set", "key": "k", "value": b"v", "noreply": False}), ("serialize", {"op": "set_many", "values": {"a": b"1"}, "noreply": False}),
+                            ("deserialize", {"op": "get", "key": "t"}), ("deserialize", {"op": "get_many", "keys": ["t", "n"]})):
+            for inner_op in ("get", "set", "get_many", "version"):
+                for fi, fault in enumerate(inner_faults):
+                    for swallow in ((True, False) if fault else (True,)):
+                        for ie in (False, True):
+                            for warm in (0, 1, 2):
+                                yield {"max_pool_size": mx, "when": when, "outer": outer, "inner_op": inner_op, "inner_fault": fault, "swallow": swallow,
+                                       "ignore_exc": ie, "warm": warm}
+
+
+def check_reentrant(case, interruption=None):
+    from vlib.harness import Env, virtual_time
+    env = Env()
+    net = env.net
+    faultlab.preload(env.server, b"")
+    sd = ReentrantSerde(case["when"], case["inner_op"], case["swallow"])
+    desc = "outer %r, its %s() runs %s on the same PooledClient (max_pool_size %r, ignore_exc %r, %d warm connection(s))%s" % (
+        case["outer"], case["when"], case["inner_op"], case["max_pool_size"], case["ignore_exc"], case["warm"],
+        ", the inner call hits %r (%s by the serializer)" % (case["inner_fault"], "swallowed" if case["swallow"] else "not caught") if case["inner_fault"] else "")
+    with virtual_time(env.clock):
+        c = env.client("pooled", max_pool_size=case["max_pool_size"], serde=sd, ignore_exc=case["ignore_exc"], default_noreply=False)
+        pool = c.client_pool
+        # warm connections: 0, 1 or 2 idle sockets in the pool before the nested call
+        if case["warm"] >= 1:
+            env.call(c.get, "warm")
+        if case["warm"] == 2:
+            sd.client, sd.inner_op_saved = c, sd.inner_op
+            sd.inner_op = "get"
+            env.call(ops.invoke, c, case["outer"])
+            sd.inner_op = sd.inner_op_saved
+            del sd.inner_results[:]
+        sd.client = c
+        before = {s.id for s in net.open_sockets()}
+        ncall = env.ncalls
+        if case["inner_fault"]:
+            # the inner call is the second to touch the network in a serialize-nesting (nothing of the outer command has
+            # been sent yet) and uses a second connection in a deserialize-nesting: address the fault by socket order
+            f = dict(case["inner_fault"], call=ncall)
+            if case.get("raw_fault"):
+                pass          # the event index is meant as given (C10 sweeps all of them)
+            elif case["when"] == "deserialize" and "kind" in f and f["kind"] in ("recv",):
+                f["nth"] = 1 if case["outer"]["op"] == "get" else 1
+            if case["when"] == "deserialize" and "reply" in f:
+                f["reply"] = 1
+            net.plan([f])
+        out = env.call(ops.invoke, c, case["outer"])
+        where = "%s (outcome %r, inner outcomes %r)" % (desc, c01._short(out), [c01._short(x) for x in sd.inner_results])
+        if interruption:
+            hit = [x for x in net.fired if x["fault"].get("call") == ncall and x["fault"].get("what") in interruption]
+            if hit and not (out[0] == "exc" and type(out[1]) is interruption[hit[0]["fault"]["what"]]):
+                raise Violation(["reentrant", "interruption-swallowed"], "%s raised inside %s did not reach the caller: %s" % (hit[0]["fault"]["what"], hit[0]["fault"]["kind"], where))
+        ran = bool(sd.inner_results) or bool(interruption)      # (a fault that hits the outer call's own connect keeps the nested call from happening)
+        if len(pool.used):
+            raise Violation(["reentrant", "checked-out-after-call"], "%d pooled connection(s) still checked out after %s" % (len(pool.used), where))
+        if len(set(map(id, pool.free))) != len(pool.free):
+            raise Violation(["reentrant", "listed-twice"], "a connection is listed twice among the idle ones after %s" % where)
+        for name, at, detail in net.flags:
+            if name in ("io-on-closed-socket", "cross-call-read"):
+                raise Violation(["reentrant", name], "%s (%r): %s" % (name, detail, where))
+        fired = [x for x in net.fired if x["fault"].get("call") == ncall]
+        failed_socks = {x.get("sock") for x in fired if x.get("sock") is not None}
+        open_now = net.open_sockets()
+        idle_socks = {id(cl.sock) for cl in pool.free if getattr(cl, "sock", None) is not None}
+        for s_ in open_now:
+            # (a socket whose connect() was aborted by an interruption is simply dropped, unreferenced: not judged - C10 is about slots and replies)
+            if id(s_) not in idle_socks and not (interruption and not s_.connected):
+                raise Violation(["reentrant", "open-socket-outside-pool"], "socket %d is open but belongs to no idle pooled connection after %s" % (s_.id, where))
+        healthy = ran and out[0] == "ok" and all(r[0] == "ok" for r in sd.inner_results) and not fired
+        if healthy and len(open_now) != 2 and case["warm"] != 0:
+            raise Violation(["reentrant", "healthy-connection-dropped"], "both calls succeeded but %d socket(s) are open afterwards (2 expected: one per nesting level): %s" % (len(open_now), where))
+        # afterwards: sequential calls reuse what is idle, nothing new is opened while an idle connection exists
+        n_open = len(open_now)
+        sd.client = None          # (plain calls from here on)
+        a = env.call(c.set, "after", b"x", noreply=False)
+        b = env.call(c.get, "after")
+        if a != ("ok", True) or b != ("ok", b"x"):
+            raise Violation(["reentrant", "follow-up"], "follow-up set/get gave %r / %r after %s" % (c01._short(a), c01._short(b), where))
+        if len(pool.used):
+            raise Violation(["reentrant", "checked-out-after-call"], "%d pooled connection(s) checked out after the follow-up calls: %s" % (len(pool.used), where))
+        # (after a swallowed failure under ignore_exc a pooled Client object without a socket sits in the pool as well and
+        #  may be the one handed out: only the fault-free nesting is judged here)
+        if healthy and n_open >= 1 and len(net.open_sockets()) > n_open:
+            raise Violation(["reentrant", "idle-not-reused"], "an idle connection existed but the follow-up calls opened another socket (%d -> %d): %s" % (n_open, len(net.open_sockets()), where))
+        c.close()
+        if [x for x in net.open_sockets() if x.connected or not interruption]:
+            raise Violation(["reentrant", "leak-after-close"], "sockets still open after close(): %s" % where)
+    return ran, ["reentrant", case["when"], "inner-fault" if fired else "no-fault", "max=%s" % case["max_pool_size"]] + ([] if ran else ["nested-call-did-not-happen"])
+
+
 PARTS = [
+    Part("re-entrant-calls", "enum", check_reentrant, cases=reentrant_cases, exhaustive=True),
     Part("fault-and-gap-sweep", "enum", check, cases=sweep_cases, exhaustive=True),
     Part("random-histories", "hyp", check, strategy=history_strategy,
          examples={"quick": 300, "thorough": 12000}, shards={"quick": 4, "thorough": 16}),
